@@ -28,8 +28,13 @@ fn same(t: &Tag, k: u8, pid: u32) -> bool {
     }
 }
 
-fn scenario(n: usize) {
-    let kinds: [u8; 3] = kani::any();
+/// Tag kinds per scenario are constants (so that any `Tag == Tag` the code under test may perform
+/// folds instead of walking `Path` components symbolically); the pids are symbolic, so adjacent
+/// process tags may or may not be equal.
+const PATTERNS: [[u8; 3]; 5] = [[1, 1, 0], [0, 0, 1], [2, 1, 1], [0, 1, 0], [2, 2, 2]];
+
+fn scenario(pat: usize, n: usize) {
+    let kinds = PATTERNS[pat];
     let pids: [u32; 3] = kani::any();
     let mut tags = Vec::with_capacity(3);
     let mut i = 0;
@@ -37,7 +42,8 @@ fn scenario(n: usize) {
         tags.push(tag_of(kinds[i], pids[i]));
         i += 1;
     }
-    kani::cover!(n == 3 && kinds[0] % 3 == 1 && kinds[1] % 3 == 1, "adjacent equal tags");
+    kani::cover!(n == 3 && pat == 0, "adjacent equal tags");
+    kani::cover!(n == 2 && pat == 1 && pids[0] == pids[1], "adjacent process tags with equal pids");
     let ev = Event { tags, metadata: HashMap::with_hasher(random_state_stub()) };
     let wire = SerdeEvent::from(ev);
     assert!(wire.tags().len() == n, "C16: tag count changed on the way to the wire");
@@ -53,17 +59,18 @@ fn scenario(n: usize) {
 }
 
 #[kani::proof]
-#[kani::unwind(6)]
+#[kani::unwind(22)]
 #[kani::stub(stdhash::RandomState::new, random_state_stub)]
 pub fn c16_event_tags_preserved() {
+    // (pattern, length) is solver-chosen, constant per path
     let c: usize = kani::any();
-    kani::assume(c < 4);
-    let mut n = 0;
-    while n < 4 {
-        if c == n {
-            scenario(n);
+    kani::assume(c < 5 * 4);
+    let mut k = 0;
+    while k < 5 * 4 {
+        if c == k {
+            scenario(k / 4, k % 4);
             kani::assume(false); // end of path
         }
-        n += 1;
+        k += 1;
     }
 }
